@@ -465,3 +465,19 @@ Proof.
   - now rewrite (denotes4_no_colon _ _ H), (accepts4 _ _ H).
   - now rewrite (denotes6_has_colon _ _ H), (accepts6 strict _ _ H).
 Qed.
+
+(* ---- the determinism clause is false for the code as it is ------------------------ *)
+Lemma det_refuted : ~ (forall s ws, str_to_ipv6 s = POk ws -> fully_written ws).
+Proof.
+  intros H.
+  (* "1:2:3" *)
+  specialize (H [49; 58; 50; 58; 51]%N [Some 1%N; Some 2%N; Some 3%N; None; None; None; None; None]).
+  destruct H as (vs & E & _); [vm_compute; reflexivity|].
+  destruct vs as [|? [|? [|? [|? vs]]]]; discriminate.
+Qed.
+
+Example witness_1_2_3 :
+  str_to_ipv6 [49; 58; 50; 58; 51]%N = POk [Some 1%N; Some 2%N; Some 3%N; None; None; None; None; None] /\
+  str_to_ipv6_fixed [49; 58; 50; 58; 51]%N = PErr /\
+  str_to_ipv6 [49; 58; 58; 51]%N = POk (map Some [1; 0; 0; 0; 0; 0; 0; 3]%N).
+Proof. vm_compute. repeat split. Qed.
